@@ -12,6 +12,7 @@ type State struct {
 	epoch    int
 	heap     map[string]Term // array family -> current version
 	allocPtr Term
+	ghost    map[string]Term // ghost observers (called#f, errSeen#f): Bool terms
 }
 
 func (s *State) clone() *State {
@@ -19,7 +20,18 @@ func (s *State) clone() *State {
 	for k, v := range s.heap {
 		h[k] = v
 	}
-	return &State{epoch: s.epoch, heap: h, allocPtr: s.allocPtr}
+	g := make(map[string]Term, len(s.ghost))
+	for k, v := range s.ghost {
+		g[k] = v
+	}
+	return &State{epoch: s.epoch, heap: h, allocPtr: s.allocPtr, ghost: g}
+}
+
+func (s *State) ghostGet(k string) Term {
+	if t, ok := s.ghost[k]; ok {
+		return t
+	}
+	return tFalse
 }
 
 // Heap array families:
@@ -77,6 +89,11 @@ func (h *HeapEnv) get(st *State, fam string, so Sort) Term { return h.cur(st, fa
 func (h *HeapEnv) merge(ins []edgeState) *State {
 	if len(ins) == 1 {
 		return ins[0].st.clone()
+	}
+	for _, e := range ins {
+		if e.st.ghost == nil {
+			e.st.ghost = map[string]Term{}
+		}
 	}
 	sameEpoch := true
 	for _, e := range ins[1:] {
@@ -139,6 +156,26 @@ func (h *HeapEnv) merge(ins []edgeState) *State {
 		ap = Ite(ins[i].cond, ins[i].st.allocPtr, ap)
 	}
 	out.allocPtr = h.sc.Define("allocptr", ap)
+	// ghosts
+	out.ghost = map[string]Term{}
+	gk := map[string]bool{}
+	for _, e := range ins {
+		for k := range e.st.ghost {
+			gk[k] = true
+		}
+	}
+	var gnames []string
+	for k := range gk {
+		gnames = append(gnames, k)
+	}
+	sort.Strings(gnames)
+	for _, k := range gnames {
+		t := ins[len(ins)-1].st.ghostGet(k)
+		for i := len(ins) - 2; i >= 0; i-- {
+			t = Ite(ins[i].cond, ins[i].st.ghostGet(k), t)
+		}
+		out.ghost[k] = h.sc.Define("ghost", t)
+	}
 	return out
 }
 
